@@ -16,10 +16,18 @@
 
    output  L [I status; I isomorphic (the model's own verdict); I cert_ok; L [result ...]; L [result ...];
               I same_order (informational: the model's search left exactly the given order map)]
+              I same_entries (the model's search left the same ENTRIES as the given order map, insertion order
+                ignored - COMPARED: Iso/Deciders.v order_same_setb; 0 in mode 0);
+              I wf1; I wf2 (Iso/Deciders.v wf_specb of the two descriptors: the hypothesis wf_spec of
+                C12_transport_inverse / C12_constructed_bijection(_objects), decided; sound by wf_specb_sound)]
+              objects (Iso/DecidersObjects.v objects_verdict on the APPENDED INPUT FIELD 8 = [descs1, descs2], the C07
+                descriptors of the two specifications under the labels of spec1 / spec2, or absent / []:
+                [idescribes1, rank1, closed1, idescribes2, rank2, closed2] - the hypotheses idescribes, rank certificate
+                and closed of C12_transport_inverse_objects / C12_constructed_bijection_objects decided - or [])]
      status 0 ok, 8 out of fuel, otherwise the exception code
      result = L [I 0; tree] | L [I code] *)
 From Coq Require Import ZArith List Bool.
-From CSS Require Import Base.Sx Base.PyList Iso.Model Iso.Cert.
+From CSS Require Import Base.Sx Base.PyList Iso.Model Iso.Cert Iso.Deciders Iso.DecidersObjects.
 Import ListNotations.
 Open Scope Z_scope.
 
@@ -98,6 +106,9 @@ Definition run_c12 (inp : sx) : sx :=
   | Raise e => L [I e]
   | Ok (b, s) =>
       if Z.eqb mode 1 then
-        L ([I 0; of_bool b] ++ run_maps s1 s2 ord fuel ts1 ts2 ++ [of_bool (order_eqb (om s) ord)])
-      else L [I 0; of_bool b; I 0; L []; L []; I 0]
+        L ([I 0; of_bool b] ++ run_maps s1 s2 ord fuel ts1 ts2 ++
+           [of_bool (order_eqb (om s) ord); of_bool (order_same_setb (om s) ord);
+            of_bool (wf_specb s1); of_bool (wf_specb s2); objects_verdict (sx_nth inp 8) s1 s2])
+      else L [I 0; of_bool b; I 0; L []; L []; I 0; I 0; of_bool (wf_specb s1); of_bool (wf_specb s2);
+              objects_verdict (sx_nth inp 8) s1 s2]
   end.
